@@ -167,6 +167,10 @@ func init() {
 				case e2 := <-rerr:
 					if e2 != nil {
 						r.Props = append(r.Props, viol("C19", "retry-not-completed-by-ack", "%s/%s: the re-issued request was acknowledged on the new connection but Retry returned %v", kind, cause, e2))
+					} else if pw, _, e := specDecode(w); e == nil && (kind == "pub1" || kind == "pub2a") && pw.Type != 0x30 {
+						// C07: the exchange was interrupted before PUBACK / PUBREC; success now rests on an acknowledgement of a
+						// later stage alone (a broker answers PUBREL with PUBCOMP even for an identifier it does not know)
+						r.Props = append(r.Props, viol("C07", "completed-without-own-ack", "%s/%s: interrupted before its first acknowledgement, the retried publish reported success after sending %s and receiving only the answer to that: no PUBLISH was retransmitted, no %s ever arrived", kind, cause, showSPkt(pw), map[string]string{"pub1": "PUBACK", "pub2a": "PUBREC"}[kind]))
 					}
 				case <-time.After(3 * time.Second):
 					r.Props = append(r.Props, viol("C19", "retry-not-completed-by-ack", "%s/%s: the re-issued request was acknowledged on the new connection but Retry did not return", kind, cause))
